@@ -58,7 +58,7 @@ class Check:
         self.cov["evaluations"] += n
         if nontrivial_key is not None and nontrivial_key not in self._distinct:
             self._distinct.add(nontrivial_key)
-            self.cov["distinct_nontrivial"] = len(self._distinct)
+            self.cov["distinct_nontrivial"] = max(self.cov["distinct_nontrivial"], len(self._distinct))
 
     def sample(self, s, cap=6):
         if len(self.cov["samples"]) < cap:
